@@ -378,3 +378,33 @@ def same_instant_transfer_then_sale(rng: random.Random, asset: str = "AAA") -> D
     if rng.random() < 0.5:
         b.dispose(day + timedelta(days=30), 1, rng.randint(50, 500), ex="Coinbase", ho=holder)
     return b.done(rng, shuffle=rng.random() < 0.7)
+
+
+def many_lots_one_sale(rng: random.Random, asset: str = "AAA") -> Dict[str, Any]:
+    """24-40 small acquisitions, then one disposal spanning (almost) all of them and a few more: an asset whose gain/loss
+    fractions outnumber its taxable events by dozens (report sheets are sized from counts)."""
+    b = HB(asset=asset, exchanges=EXCHANGES[:2], holders=HOLDERS[:1])
+    t = T(rng.randint(2016, 2021), rng.randint(1, 12), rng.randint(1, 28))
+    n = rng.randint(24, 40)
+    for k in range(n):
+        b.acquire(t, rng.choice((1, 1, "0.5", 2)), rng.randint(50, 900), ttype=rng.choice(("BUY", "BUY", "INTEREST", "MINING")))
+        t += timedelta(days=rng.choice((1, 7, 14)), seconds=rng.randint(0, 3600))
+    held = sum(Decimal(r["cin"]) for r in b.rows)
+    b.dispose(t + timedelta(days=5), held - Decimal("0.5"), rng.randint(50, 900), ttype=rng.choice(("SELL", "GIFT")))
+    b.acquire(t + timedelta(days=9), 1, 300)
+    b.dispose(t + timedelta(days=20), "0.75", 310)
+    return b.done(rng, shuffle=rng.random() < 0.5)
+
+
+def sold_in_thirds(rng: random.Random, asset: str = "AAA") -> Dict[str, Any]:
+    """An asset sold completely, each lot in three or seven equal parts (the consumed percentages of a lot - 1/3, 1/7 - do not
+    add up to exactly 1 in decimal arithmetic), under any method."""
+    b = HB(asset=asset, exchanges=EXCHANGES[:2], holders=HOLDERS[:1])
+    t = T(rng.randint(2016, 2021), rng.randint(1, 12), rng.randint(1, 28))
+    for amount, part, parts in rng.sample([("3", "1", 3), ("7", "1", 7), ("1.5", "0.5", 3), ("6", "2", 3), ("21", "3", 7), ("0.21", "0.03", 7)], rng.randint(1, 3)):
+        b.acquire(t, amount, rng.randint(50, 900), ttype=rng.choice(("BUY", "STAKING")))
+        t += timedelta(days=rng.randint(1, 30))
+        for _ in range(parts):
+            b.dispose(t, part, rng.randint(50, 900), ttype=rng.choice(("SELL", "SELL", "GIFT", "LOST")))
+            t += timedelta(days=rng.randint(1, 90))
+    return b.done(rng, shuffle=rng.random() < 0.5)
